@@ -50,6 +50,7 @@
 /* ---- control (written by the harness) ---- */
 extern int vk_cur;               /* executing process: 0 or 1 */
 extern int vk_preempt_on;        /* 1: the next system-call entries may run vk_other() once */
+extern int vk_preempt_at;        /* 0: any armed entry may be preempted (symbolic); k>0: exactly the k-th system call of the armed process */
 extern int vk_preempted;         /* set when vk_other() was run */
 extern int vk_crash_at[2];       /* 1-based index of the first system call that is not executed; 0 = never */
 extern int vk_dead[2];
